@@ -168,7 +168,7 @@ impl Check for C11Check {
             3 | 4 | 5 => Kind::EvFault {
                 base: BaseEvent { run: *r.pick(&[u32::MAX, u32::MAX, 11084, 9277]), seed: r.next_u64(), n_wires: r.usize(1, 24), n_pad_msgs: r.usize(0, 4), long_only: r.chance(1, 2), pad_start: None },
                 // duplicates (slots 3..=7) and pad faults favoured
-                slot: *r.pick(&[3usize, 4, 5, 6, 7, 9, 13, 14, 15, 16, 0, 2, 18, 100]),
+                slot: *r.pick(&[3usize, 4, 5, 6, 7, 9, 13, 14, 15, 16, 0, 2, 18, 100, 29, 30, 31, 29, 30, 31]),
             },
             6 => Kind::Extreme { wires: *r.pick(&[2usize, 9, 40]), wire_mode: r.below(8) as u8, wire_len: *r.pick(&[101usize, 130, 300]), pad_msgs: r.usize(0, 3), pad_mode: r.below(8) as u8, pad_req: *r.pick(&[101u16, 120, 300]), pad_channels: *r.pick(&[3usize, 20, 79]), seam: r.chance(1, 2) },
             _ => Kind::Fwd { tracks: 2, noise: 0.0, amp_scale: *r.pick(&[0.2, 3.0]) },
